@@ -125,6 +125,7 @@ class PathSum:
         if enums:
             self.enums.update(enums)
         self.closures = {}
+        self._closure_refs = {}
         self.loops = {}
         self.npaths = 0
         self.notes = []
@@ -500,6 +501,19 @@ class PathSum:
     def ev_Closure(self, e, st):
         key = e["def"]
         self.closures[key] = e
+        # literal values of captured locals are part of the closure's identity (the same closure text created inside a
+        # helper that is evaluated in place with different arguments denotes different predicates)
+        refs = self._closure_refs.get(key)
+        if refs is None:
+            from hir import walk
+            refs = set()
+            for x in walk(e["body"]):
+                if x.get("k") == "Path" and x["res"].get("r") == "Local":
+                    refs.add(x["res"]["id"])
+            self._closure_refs[key] = refs
+        cap = tuple(sorted((i, v) for i, v in st.env.items() if i in refs and isinstance(v, tuple) and v and v[0] == "lit"))
+        if cap:
+            return [("val", st, ("closure", key, cap))]
         return [("val", st, ("closure", key))]
 
     def ev_Ret(self, e, st):
